@@ -23,17 +23,27 @@ THEOREMS = []
 POINT = "run(): whole TLS export, real tool vs TLX.Pipeline (toy ciphers, real hashes)"
 
 
+DEFLATE_SEEN = []      # decryptors the tool built with compression_method == 1 (DEFLATE): record compression is not modelled
+
+
 @contextlib.contextmanager
 def toy_world():
     import tlexport.cipher_suite_parser as CSP
     import tlexport.session as S
     saved = []
 
+    class RecordingDecryptor(S.Decryptor):
+        def __init__(self, *a, **kw):
+            super().__init__(*a, **kw)
+            if getattr(self, "compression_method", 0) == 1:
+                DEFLATE_SEEN.append(1)
+
     def put(obj, name, val):
         saved.append((obj, name, getattr(obj, name)))
         setattr(obj, name, val)
 
     with T.patched():
+        put(S, "Decryptor", RecordingDecryptor)
         for n in ("AES", "TripleDES", "IDEA", "Camellia", "AESCCM", "AESGCM"):
             put(S, n, T.TOY[n])
         for n in ("AES", "TripleDES", "IDEA", "Camellia", "ARC4", "ChaCha20Poly1305"):
@@ -162,6 +172,22 @@ def one_case(rng):
     elif fault < 0.36:
         del items[rng.randrange(len(items))]
         what = "drop-packet"
+    elif fault < 0.41:
+        # a ServerHello whose compression_method byte is not 0 (damage, or a peer that names an unassigned method): the
+        # decryptor acts on the value 1 only (DEFLATE, not modelled: such cases are skipped), every other value is "none"
+        for k, it in enumerate(items):
+            try:
+                d = wire.parse_frame(it[2])
+            except wire.FrameError:
+                continue
+            pl = bytes(d["payload"]) if d["proto"] == 6 else b""
+            if len(pl) > 48 and pl[0] == 0x16 and pl[5] == 0x02 and 44 + pl[43] + 2 < len(pl):
+                pl = bytearray(pl)
+                pl[44 + pl[43] + 2] = rng.choice([1, 2, 4, 64, 255])
+                items[k] = ("pkt", it[1], wire.tcp_frame(d["smac"], d["dmac"], d["src"], d["dst"], d["sport"], d["dport"],
+                                                       d["seq"], d["ack"], d["flags"], bytes(pl)))
+                what = "compression-byte"
+                break
     rng.shuffle(keylog)
     opt = {"c": 0, "g": 0, "a": int(rng.random() < 0.4), "p": "-", "m": "-"}
     argv = []
@@ -195,7 +221,12 @@ def correspond(ctx, n=None):
         model = ctx.driver("pipeline", lines, timeout=1800)
         for (items, keylog, argv, opt, desc), (a, k) in zip(cases, spans):
             want = model[a + k - 1]
+            del DEFLATE_SEEN[:]
             r = tool.run(wire.pcapng(items), "\n".join(keylog) + "\n", argv)
+            if DEFLATE_SEEN:
+                # a damaged ServerHello negotiated DEFLATE (compression byte 1): record compression is not modelled
+                ctx.hist("pipeline-skipped", "DEFLATE negotiated by a damaged ServerHello")
+                continue
             if r.crashed:
                 got = "crash:" + r.signature()
             else:
